@@ -43,13 +43,13 @@ theorem frame_commitOrInsert (sh0 sh : Shared D L) (c0 : CompEditor) (ch : Nat) 
   · frame_leaf
   · exact frame_withCom_absorb _ _ _ _
 
-theorem frame_inputChar (sh0 sh : Shared D L) (c0 : CompEditor) (ev : KeyEvent) :
-    Frame sh0 c0 (inputChar sh ev) := by
-  unfold inputChar fullOrPanic
+theorem frame_inputChar (sh0 sh : Shared D L) (ev : KeyEvent) :
+    Frame sh0 sh.com (inputChar sh ev) := by
+  unfold inputChar fullOrBell
   repeat' split
   all_goals first
     | exact frame_commitOrInsert _ _ _ _
-    | exact frame_panic _ _ _
+    | frame_leaf
 
 theorem frame_chineseFallback (sh0 sh : Shared D L) (ev : KeyEvent) :
     Frame sh0 sh.com (chineseFallback sh ev) := by
@@ -57,7 +57,7 @@ theorem frame_chineseFallback (sh0 sh : Shared D L) (ev : KeyEvent) :
   repeat' split
   all_goals first
     | exact frame_withCom_absorb _ _ _ _
-    | exact frame_inputChar _ _ _ _
+    | exact frame_inputChar _ _ _
     | frame_leaf
 
 theorem frame_newPhrase (sh0 sh : Shared D L) (c0 : CompEditor) : Frame sh0 c0 (newPhrase env sh) := by
@@ -147,7 +147,7 @@ theorem frame_enteringDefault (sh : Shared D L) (ev : KeyEvent) :
   repeat' split
   all_goals first
     | exact frame_withCom_absorb _ _ _ _
-    | exact frame_inputChar _ _ _ _
+    | exact frame_inputChar _ _ _
     | exact frame_chineseFallback _ _ _
     | exact frame_chineseFallback sh { sh with syl := (env.keyPress sh.syl ev).2 } ev
     | frame_leaf
